@@ -89,7 +89,23 @@ static void conv_case(uint64_t nn, unsigned rep) {
   const u128 Q = q120_bigQ();
   for (uint64_t i = 0; i < nn; i++) {
     i128 v;
-    switch (i % 6) {
+    switch (i % 8) {
+      case 6:
+      case 7: {
+        // t * (product of a subset of the primes) + small: several residues coincide (all equal to the small remainder), the value
+        // itself is far from small - what a "the residues agree, so this is the value" shortcut would get wrong
+        const unsigned subset = 1 + (unsigned)(rng_u64(r) % 14);  // non-empty proper subset of the four primes
+        u128 P = 1;
+        for (int k = 0; k < 4; k++)
+          if (subset & (1u << k)) P *= Q120[k];
+        const u128 tmax = (Q / 2) / P;
+        const u128 t = tmax ? 1 + (((u128)rng_u64(r) << 64 | rng_u64(r)) % tmax) : 1;
+        const uint64_t rem = (i % 8 == 6) ? rng_u64(r) % 1000 : rng_u64(r) % Q120[3];
+        v = (i128)(t * P + rem);
+        if (v > (i128)(Q / 2)) v = (i128)(P + rem);
+        if (rng_u64(r) & 1) v = -v;
+        break;
+      }
       case 0: v = (i128)(Q / 2); break;            // (Q-1)/2: largest positive
       case 1: v = -(i128)(Q / 2); break;           // -(Q-1)/2
       case 2: v = (i128)(Q / 2) - (i128)(rng_u64(r) % 1000); break;
